@@ -413,6 +413,23 @@ class Pickled(OpcodeSequence):
         self._opcodes.insert(index, opcode)
         self._ast = None
         self._properties = None
+        self._refresh_frames()
+
+    def _refresh_frames(self):
+        """A FRAME opcode announces how many bytes of opcodes follow it. After an edit the old
+        value ends in the middle of some opcode, which the accelerated unpickler misparses when
+        it reads from a stream without peek() (io.BytesIO, unbuffered files, sockets).
+        Recompute every frame so that it spans the opcodes up to the next FRAME (or the end)."""
+        frames = [i for i, opcode in enumerate(self._opcodes) if isinstance(opcode, Frame)]
+        for n, i in enumerate(frames):
+            end = frames[n + 1] if n + 1 < len(frames) else len(self._opcodes)
+            try:
+                length = sum(len(opcode.data) for opcode in self._opcodes[i + 1 : end])
+            except NotImplementedError:
+                continue
+            frame = self._opcodes[i]
+            frame.arg = length
+            frame.data = frame.info.code.encode("latin-1") + struct.pack("<Q", length)
 
     def _is_constant_type(self, obj: Any) -> bool:
         return isinstance(obj, (int, float, str, bytes))
@@ -679,11 +696,13 @@ class Pickled(OpcodeSequence):
         self._opcodes[index] = item
         self._ast = None
         self._properties = None
+        self._refresh_frames()
 
     def __delitem__(self, index: int):
         del self._opcodes[index]
         self._ast = None
         self._properties = None
+        self._refresh_frames()
 
     def dumps(self) -> bytes:
         b = bytearray()
